@@ -18,7 +18,7 @@ from . import rustlex as L
 from .assemble import VERIF, REPO
 from .extract import Undecided
 
-BUILD = os.path.join(VERIF, 'build', 'c38')
+BUILD = os.path.join(os.environ.get('VERIF_BUILD') or os.path.join(VERIF, 'build'), 'c38')
 # unsafe impls that are NOT components held by the shared analysis (query-time views); kept as they are
 NOT_HELD = {'SemanticModel'}
 UNSAFE_RE = re.compile(r'^[ \t]*unsafe\s+impl\s*(<[^>]*>)?\s*(Send|Sync)\s+for\s+([A-Za-z_][\w:]*)[^\n{]*\{\s*\}[ \t]*\n', re.M)
